@@ -18,6 +18,7 @@
   result is a sorted permutation; Go's `%d` printing is tied by the differential runs.
 -/
 import SygmaModel.Model.C19
+import SygmaModel.Props.C14
 import SygmaModel.Props.C05
 namespace Sygma.C19
 open Sygma.C04 Sygma.C05
@@ -296,6 +297,19 @@ example :
 
 example : groupLoop 1 10 14 [⟨2, 0, false⟩, ⟨3, 1, false⟩, ⟨2, 2, true⟩, ⟨2, 3, false⟩]
     = [(2, [(0, "1-2-10-14"), (3, "1-2-10-14")]), (3, [(1, "1-3-10-14")])] := by decide
+
+/-- **session ids of the EVM executor.** Two relayers that are handed the same delivery (same message id, same
+    proposals, same executed answers, same gas configuration) sign the same batches under the same session ids:
+    `signed` is a function of exactly these inputs, its ids are pairwise distinct and positional (C14). What ties the
+    real `Execute` to this function — in particular that the id is built from the batch's OWN index and not from shared
+    loop state — is the `evmsession` correspondence op. -/
+theorem evm_session_ids_agree (m : String) (cap tg : Nat) (ps : List Sygma.C14.PIn)
+    (hno : Sygma.C14.NoOverflow (Sygma.C14.pending tg ps)) :
+    let a := Sygma.C14.signed m (Sygma.C14.batches cap tg ps)   -- relayer A
+    let b := Sygma.C14.signed m (Sygma.C14.batches cap tg ps)   -- relayer B, same delivery
+    a = b ∧ (a.map (·.1)).Nodup ∧ (a.map (·.2)).flatten = (Sygma.C14.pending tg ps).map (·.1) := by
+  refine ⟨rfl, Sygma.C14.signed_sids_nodup _ _, ?_⟩
+  exact (Sygma.C14.signed_partition cap tg ps m hno).1
 
 end Property
 end Sygma.C19
